@@ -27,7 +27,7 @@ def _sig(c, v):
 
 SPEC = {
     "runners": [{
-        "kind": "coqcases", "harness": "c18", "corr": "Run/CorrC18.v (monitor of the lifecycle clauses + prediction of Model/Lifecycle.v vs a running server.Server)",
+        "kind": "coqcases", "module": "CorrC18", "harness": "c18", "corr": "Run/CorrC18.v (monitor of the lifecycle clauses + prediction of Model/Lifecycle.v vs a running server.Server)",
         "timeout": 3000, "sigfn": _sig,
         "rule": "each case = one life of a real server.Server on loopback (HTTP, HTTPS with a certificate generated at run time, gRPC example service): Start, real requests until every listener answers, k requests per provider blocked inside their handlers (scripted: handlers wait on a channel), Stop with an ample / already expired / expiring context, release, then WaitGroup, connection-refused and re-bind checks (and for some a second server on the same ports); or Start immediately followed by Stop after a 0-5000us pause. Generation: every non-empty provider subset x in-flight patterns x context kinds; immediate stops repeated with varying pauses; seeded random scenarios. Observations that look wrong are re-run up to 3 times and reported only if they reproduce every time. distinct = by (providers, in-flight vector, context kind, immediate, pause, idle connections, TLS mode, restart); every case is non-trivial (at least one provider).",
     }],
